@@ -1,5 +1,6 @@
 import ExoVerif.Driver.Common
 import ExoVerif.Model.ConsKeys
+import ExoVerif.Model.ConsKeysJail
 /- driver for the C07 / C16 correspondence (ops `ck.*`, see harness/dom_conskeys.go) -/
 namespace ExoVerif.Driver.ConsKeys
 open ExoVerif.ConsKeys ExoVerif.ValSet ExoVerif.Driver
@@ -14,6 +15,10 @@ def showOut : Out → String
   | .errMinDelegation => "ErrMinDelegationNotMet" | .errAlreadyRemovingKey => "ErrAlreadyRemovingKey"
   | .errConsKeyInUse => "ErrConsKeyAlreadyInUse" | .errNotOptedIn => "ErrNotOptedIn" | .panic => "panic"
 
+def showUOut : UOut → String
+  | .ok => "ok" | .errNoValidator => "ErrNoValidatorForAddress" | .errSelfTooLow => "ErrSelfDelegationTooLowToUnjail"
+  | .errNotJailed => "ErrValidatorNotJailed" | .errJailed => "ErrValidatorJailed" | .panic => "panic"
+
 def showVals (vs : VSet) : String :=
   joinWith "," ((ExoVerif.VMap.isort (fun (a b : Nat × Int) => decide (a.1 ≤ b.1)) vs).map (fun p => s!"{p.1}:{p.2}"))
 
@@ -21,7 +26,7 @@ def showSt (s : St) : String :=
   let ops := (List.range s.nOps).filter (fun o => s.registered o)
   let o := joinWith ";" (ops.map (fun op =>
     s!"{op}:{showOpt (s.fwd op)}:{showOpt (s.fwd2 op)}:{showOpt (s.prevKey op)}:{b01 (s.removing op)}:{b01 (s.optedIn op)}:{b01 (s.jailed op)}:{showOptI (s.optOutFinishEpoch op)}"))
-  let r := joinWith "," ((List.range s.nKeys).filterMap (fun k => match s.rev k with | some op => some s!"{k}:{op}" | none => none))
+  let r := joinWith "," ((List.range s.nKeys).filterMap (fun k => match s.rev k with | some op => some s!"{k}:{op}:{b01 (jailedView s k)}" | none => none))
   let win := (List.range 8).map (fun i => s.epoch - 2 + Int.ofNat i)
   let q := joinWith ";" (win.filterMap (fun e =>
     if (s.optOutsToFinish e).isEmpty && (s.addrsToPrune e).isEmpty && (s.undelToMature e).isEmpty then none
@@ -54,6 +59,9 @@ def dstep (s : St) (w : List String) : St × String :=
   | ["ck.setkey", op, key] => fin (ExoVerif.ConsKeys.step s (.setKey (parseNat! op) (parseNat! key)))
   | ["ck.optout", op] => fin (ExoVerif.ConsKeys.step s (.optOut (parseNat! op)))
   | ["ck.jail", key, b] => fin (ExoVerif.ConsKeys.step s (.jail (parseNat! key) (b == "1")))
+  | ["ck.unjailmsg", op, total, self, min, t] =>
+    let r := unjailMsg s (parseNat! op) (parseInt! total) (parseInt! self) (parseInt! min) (t == "1")
+    (r.2, showUOut r.1 ++ "|" ++ showSt r.2)
   | ["ck.undel", op, rc] =>
     let rc := parseNat! rc
     let r := ExoVerif.ConsKeys.step s (.undelegate (parseNat! op) rc)
